@@ -120,6 +120,11 @@ func ApplyStoredFault(t *tape.Tape, data []byte, fields []refmodel.Field) ([]byt
 // InputWeights selects the input classes DrawInput may produce.
 type InputWeights struct {
 	Corpus, Valid, ICCDamaged, Damaged, Random, SigJunk, Polyglot, Empty int
+	// ShortSOF: a valid JPEG into which a second, too short frame header is
+	// inserted after the real one (or in place of it): the parser indexes the
+	// segment unchecked, so this is the input on which a loader's internal panic
+	// happens after (or before) basic metadata was extracted
+	ShortSOF int
 }
 
 var signatures = [][]byte{
@@ -133,7 +138,32 @@ var signatures = [][]byte{
 
 // DrawInput draws one input.
 func DrawInput(t *tape.Tape, w InputWeights, iccSizes []int) Input {
-	switch t.Pick(w.Corpus, w.Valid, w.ICCDamaged, w.Damaged, w.Random, w.SigJunk, w.Polyglot, w.Empty) {
+	switch t.Pick(w.Corpus, w.Valid, w.ICCDamaged, w.Damaged, w.Random, w.SigJunk, w.Polyglot, w.Empty, w.ShortSOF) {
+	case 8:
+		f := refmodel.BuildJPEG(refmodel.DrawJPEG(t, 0, iccSizes, false, nil))
+		b := f.Bytes()
+		at := -1
+		for _, fl := range f.Truth.Fields {
+			if fl.Name == "SOF.precision" {
+				at = fl.Off - 4 // start of the SOF marker
+			}
+		}
+		if at < 0 {
+			return Input{Class: "valid", Desc: f.Truth.Desc, Data: b, Fields: f.Truth.Fields}
+		}
+		sofLen := int(refmodel.GetBE(b, at+2, 2))
+		short := []byte{0xFF, b[at+1], 0, byte(2 + t.Intn(5))}
+		short = append(short, make([]byte, int(short[3])-2)...)
+		var data []byte
+		mode := "after"
+		if t.Bool() {
+			data = append(append(append([]byte{}, b[:at+2+sofLen]...), short...), b[at+2+sofLen:]...)
+		} else {
+			mode = "instead of"
+			data = append(append(append([]byte{}, b[:at]...), short...), b[at+2+sofLen:]...)
+		}
+		return Input{Class: "jpeg-short-sof", Desc: fmt.Sprintf("%s + a %d-byte frame header %s the real one", trunc(f.Truth.Desc, 120), short[3], mode), Data: data,
+			Faults: []string{"short second SOF"}}
 	case 0:
 		c := Corpus()
 		f := c[t.Intn(len(c))]
